@@ -67,11 +67,16 @@ def case_hash(case):
 
 
 def from_library(exc):
-    """True if the traceback of ``exc`` passes through the package under test."""
+    """True if the traceback of ``exc`` passes through the package under test.
+
+    Frames of the ``bitsets`` package count as well: the checks never build bitsets themselves, they only call
+    methods of objects the library returned, so an exception there means the library handed out a broken object.
+    """
     pkg = os.path.join(REPO, 'concepts') + os.sep
     tb = exc.__traceback__
     while tb is not None:
-        if os.path.abspath(tb.tb_frame.f_code.co_filename).startswith(pkg):
+        fn = os.path.abspath(tb.tb_frame.f_code.co_filename)
+        if fn.startswith(pkg) or (os.sep + 'bitsets' + os.sep) in fn:
             return True
         tb = tb.tb_next
     return False
